@@ -63,6 +63,7 @@ type item struct {
 	Eol   int // l: 0 LF, 1 CRLF
 	Pause int // -1: none; else the peer stalls 2.3 s after that many bytes of this item's wire form
 	N     uint32
+	Pad   int // ol: that many bytes follow the header (a padded message with a bound event); fpad: payload size
 	B     bindSpec
 }
 
@@ -118,11 +119,25 @@ func (it item) wire() []byte {
 		}
 		return append(append([]byte{}, it.Data...), '\n')
 	case "ol":
+		if it.Pad > 0 {
+			return append(le32(it.N), eventBlob(it.Pad)...)
+		}
 		return le32(it.N)
+	case "fpad":
+		return append(le32(uint32(it.Pad)), eventBlob(it.Pad)...)
 	case "trunc":
 		return it.Data
 	}
 	return nil
+}
+
+// a binary payload of exactly n bytes: one Binary event for id 1, then padding protobuf skips
+func eventBlob(n int) []byte {
+	b, _ := proto.Marshal(&rwp.OutboundMessage{Events: []*rwp.HWCEvent{{HWCID: 1, Binary: &rwp.BinaryEvent{Pressed: true, Edge: 1}}}})
+	if n < len(b)+2 {
+		return padPayload(n)
+	}
+	return append(b, padPayload(n-len(b))...)
 }
 
 func markerMsg() *rwp.OutboundMessage {
@@ -151,13 +166,26 @@ func decodeLine(line []byte) (ms []*rwp.OutboundMessage, ok bool) {
 			ms, ok = nil, false
 		}
 	}()
-	return helpers.RawPanelASCIIstringsToOutboundMessages([]string{strings.TrimSpace(string(line))}), true
+	ms = helpers.RawPanelASCIIstringsToOutboundMessages([]string{strings.TrimSpace(string(line))})
+	for _, m := range ms {
+		if m == nil {
+			return nil, false // gorwp would dereference it
+		}
+		for _, e := range m.Events {
+			if e == nil {
+				return nil, false
+			}
+		}
+	}
+	return ms, true
 }
 
 func (it item) decoded(bin bool) []*rwp.OutboundMessage {
 	switch it.K {
 	case "f":
 		return decodeBin(it.Data)
+	case "fpad":
+		return decodeBin(eventBlob(it.Pad))
 	case "l":
 		ms, _ := decodeLine(it.Data)
 		return ms
@@ -252,7 +280,9 @@ func itemSx(it item, bin bool) Sx {
 	case "l":
 		return L(Sym("l"), it.Data, it.Eol, it.Pause, msgsSx(it.decoded(bin)))
 	case "ol":
-		return L(Sym("ol"), it.N)
+		return L(Sym("ol"), it.N, it.Pad)
+	case "fpad":
+		return L(Sym("fpad"), it.Pad, msgsSx(it.decoded(bin)))
 	case "trunc":
 		return L(Sym("trunc"), it.Data)
 	case "close":
@@ -609,7 +639,7 @@ func runScenario(sc *scenario) *observation {
 			endCh <- end
 		}
 		for _, it := range sc.Items {
-			plain := (it.K == "f" || it.K == "l") && it.Pause < 0
+			plain := (it.K == "f" || it.K == "l") && it.Pause < 0 || it.K == "fpad"
 			if !plain {
 				if e := sync(); e != "" {
 					finish(e)
@@ -631,7 +661,7 @@ func runScenario(sc *scenario) *observation {
 				} else {
 					w.add(wb)
 				}
-			case "ol":
+			case "ol", "fpad":
 				w.add(it.wire())
 			case "trunc":
 				w.add(it.wire())
@@ -863,7 +893,13 @@ func parseItems(n *Node) []item {
 				its = append(its, item{K: "l", Data: k.Kids[1].Bytes(), Eol: k.Kids[2].Int(), Pause: k.Kids[3].Int()})
 			}
 		case "ol":
-			its = append(its, item{K: "ol", N: uint32(k.Kids[1].Int())})
+			it := item{K: "ol", N: uint32(k.Kids[1].Int())}
+			if len(k.Kids) >= 3 {
+				it.Pad = k.Kids[2].Int()
+			}
+			its = append(its, it)
+		case "fpad":
+			its = append(its, item{K: "fpad", Pad: k.Kids[1].Int(), Pause: -1})
 		case "trunc":
 			its = append(its, item{K: "trunc", Data: k.Kids[1].Bytes()})
 		case "close":
@@ -1327,7 +1363,7 @@ func genC19(tier string, rng *Rng) {
 		}
 		g.add(&scenario{Bin: bin, Init: g.stdInit(bin, 0), Binds: binds, Items: items, Segs: dribble, Gap: 1})
 		// long stream, random cuts; large payloads
-		big := &rwp.OutboundMessage{PanelTopology: &rwp.PanelTopology{Svgbase: strings.Repeat("<g/>", 20000)}}
+		big := &rwp.OutboundMessage{PanelTopology: &rwp.PanelTopology{Svgbase: strings.Repeat("<g/>", 1500)}}
 		long := g.msgItems(bin, append(append([]*rwp.OutboundMessage{}, ms...), big, ms[0], ms[3])...)
 		for k := 0; k < 4; k++ {
 			var segs []int
@@ -1337,16 +1373,22 @@ func genC19(tier string, rng *Rng) {
 			g.add(&scenario{Bin: bin, Init: g.stdInit(bin, 0), Binds: binds, Items: long, Segs: segs, Gap: k % 2})
 		}
 	}
-	// payload sizes at the limit (binary): 499999 is legal
+	// payload sizes (binary); 499999 is the largest legal one, 500000 the smallest illegal one (followed by
+	// exactly that many bytes which would decode to a bound event if they were taken for a payload)
 	{
-		sizes := []int{0, 1, 999, 1000, 1001, 65536, 499999}
 		var items []item
-		for _, n := range sizes {
-			// a valid message of exactly n bytes: unknown field 1000 (length-delimited) padding
-			items = append(items, item{K: "f", Data: padPayload(n), Pause: -1})
+		for _, n := range []int{0, 1, 999, 1000, 1001, 8191} {
+			items = append(items, item{K: "f", Data: eventBlob(n), Pause: -1})
 			items = append(items, g.msgItems(true, &rwp.OutboundMessage{Events: []*rwp.HWCEvent{ev(1, 1, rng)}})...)
 		}
 		g.add(&scenario{Bin: true, Init: g.stdInit(true, 0), Binds: []bindSpec{{1, 1, 1, 1}}, Items: items})
+		one := g.msgItems(true, &rwp.OutboundMessage{Events: []*rwp.HWCEvent{ev(1, 1, rng)}})
+		for _, n := range []int{65536, 499998, 499999} {
+			g.add(&scenario{Bin: true, Init: g.stdInit(true, 0), Binds: []bindSpec{{1, 1, 1, 1}}, Items: append([]item{{K: "fpad", Pad: n, Pause: -1}}, one...)})
+		}
+		for _, n := range []int{500000, 500001} {
+			g.add(&scenario{Bin: true, Init: g.stdInit(true, 0), Binds: []bindSpec{{1, 1, 1, 1}}, Items: append([]item{{K: "ol", N: uint32(n), Pad: n}}, one...)})
+		}
 	}
 
 	// G7 — faults at every position of a small stream
@@ -1468,11 +1510,14 @@ func raceCases(thorough bool) {
 		// build this harness with the race detector (needs cgo); offline, from the module cache
 		dir := filepath.Dir(exe)
 		if _, err := os.Stat(filepath.Join(dir, "c19.go")); err == nil {
-			cmd := exec.Command("go", "build", "-race", "-tags", "verif", "-o", "harness_race", ".")
+			wdir := filepath.Join(dir, "..", "..", "work", "C19")
+			os.MkdirAll(wdir, 0o755)
+			target := filepath.Join(wdir, "harness_race")
+			cmd := exec.Command("go", "build", "-race", "-tags", "verif", "-o", target, ".")
 			cmd.Dir = dir
 			cmd.Env = append(os.Environ(), "CGO_ENABLED=1")
 			if outb, err := cmd.CombinedOutput(); err == nil {
-				exe = filepath.Join(dir, "harness_race")
+				exe = target
 				raceBuild = true
 			} else {
 				meta(map[string]interface{}{"what": "C19 race build unavailable", "output": string(outb)})
